@@ -431,7 +431,7 @@ def dictionaries(ctx, rounds, n_probes, n_files):
 
     history = []
     mine = []           # Fortran dictionaries built by this caller, with the step at which they were built
-    counts = {'reader-calls': 0, 'incon-reads': 0, 'steps': 0}
+    counts = {'reader-calls': 0, 'incon-reads': 0, 'steps': 0, 'parser-reads': 0, 'parser-files': 0}
 
     def fail(key, inp, got, req):
         inp = dict(inp); inp['earlier_steps_in_process'] = history[-12:]
@@ -467,8 +467,72 @@ def dictionaries(ctx, rounds, n_probes, n_files):
             except Exception as e: got = ('raise', type(e).__name__, str(e)[:80])
             ctx.count(('incon', fn, label, len(history)))
             if got != want:
-                fail('fortran_read_function:changed-by-other-dictionaries', {'call': label, 'file_lines': lines}, got, 'the values Fortran wrote: %r' % (want,))
+                fail('fortran_read_function:changed-by-other-dictionaries', {'call': label, 'file_lines': lines}, got, 'the values Fortran wrote (nseq, nadd, porosity, variables): %s' % ([(shown(a), shown(b), shown(c), [shown(v) for v in vs]) for a, b, c, vs in want],))
                 return
+
+    def check_parsers():
+        """real fixed_format_file objects of ONE specification (a fresh one each time, so every order can be
+        played): parsers given the default / custom functions and parsers given fortran_read_function, opened,
+        used and kept alive in different orders; every parser given the Fortran functions must read Fortran's values."""
+        import copy
+        widths = {'d': [5, 6, 10], 'e': [20, 15, 12], 'f': [20, 12], 'g': [20, 15]}
+        names, specs, texts, want = [], [], [], []
+        for j in range(rng.randint(2, 6)):
+            typ = rng.choice('deefgd')
+            w = rng.choice(widths[typ])
+            while True:
+                r = rng.random()
+                if r < 0.08: t, exp = ' ' * w, canon(None)
+                elif r < 0.16: t, exp = '*' * w, (canon(None) if typ == 'd' else ('nan',))
+                elif typ == 'd':
+                    q = styled_int(rng); t, exp = field(py_render_int(*q).rstrip(), w), canon(q[0])
+                else:
+                    q = styled_real(rng)
+                    t, exp = field(py_render_real(*q).rstrip(), w), canon(float(('-' if q[0] else '') + '0.' + q[1] + 'e' + str(q[2])))
+                if t is not None: break
+            if rng.random() < 0.3: t = t.strip().ljust(w)
+            names.append('v%d' % j); specs.append('%d%s%s' % (w, '.3' if typ != 'd' else '', typ)); texts.append(t); want.append(exp)
+        spec = {'rec': [names, specs], 'other': [['a', 'b'], ['5d', '10.3e']]}
+        line = ''.join(texts)
+        fn = os.path.join(tmp, 'p%d.txt' % counts['parser-files']); counts['parser-files'] += 1
+        with open(fn, 'w') as f: f.write((line + '\n') * 8)
+        other = rng.choice([('default_read_function', lambda: fff.default_read_function), ('read_function_dict()', lambda: fff.read_function_dict()),
+                            ('read_function_dict(<f>, <g>)', lambda: fff.read_function_dict(lambda x: None, lambda x: None))])
+        same = lambda: spec if rng.random() < 0.7 else copy.deepcopy(spec)
+        scenario = rng.choice(['other-first', 'fortran-alive-then-other', 'fortran-other-fortran'])
+        opened, log = [], []
+        def op(kind):
+            rf = fff.fortran_read_function if kind == 'F' else other[1]()
+            o = fff.fixed_format_file(fn, 'r', same(), rf) if (kind == 'F' or rng.random() < 0.5 or other[0] != 'default_read_function') else fff.fixed_format_file(fn, 'r', same())
+            opened.append(o); log.append('open parser with %s' % ('fortran_read_function' if kind == 'F' else other[0])); return o
+        def use(o, kind, how):
+            log.append('%s on the parser with %s' % (how, 'fortran_read_function' if kind == 'F' else other[0]))
+            try: vals = o.read_values('rec') if how == 'read_values' else o.parse_string(line, 'rec')
+            except Exception as e: vals = ('raise', type(e).__name__)
+            if kind != 'F': return True
+            counts['parser-reads'] += 1
+            ctx.count(('parser', line, scenario, len(log), len(history)))
+            got = [canon(v) for v in vals] if isinstance(vals, list) else vals
+            if got != want:
+                fail('fixed_format_file:fortran-parser-reads-with-other-functions', {'record': line, 'specification': spec['rec'], 'steps_on_this_specification': list(log)},
+                     got, "Fortran's values %s" % ([shown(w_) for w_ in want],))
+                return False
+            return True
+        try:
+            if scenario == 'other-first':
+                d = op('D'); use(d, 'D', 'read_values'); f1 = op('F')
+                ok = use(f1, 'F', 'read_values') and use(f1, 'F', 'parse_string')
+            elif scenario == 'fortran-alive-then-other':
+                f1 = op('F'); d = op('D'); use(d, 'D', rng.choice(['read_values', 'parse_string']))
+                ok = use(f1, 'F', 'read_values') and use(op('F'), 'F', 'read_values') and use(f1, 'F', 'parse_string')
+            else:
+                f1 = op('F'); ok = use(f1, 'F', 'read_values'); d = op('D'); use(d, 'D', 'read_values')
+                ok = ok and use(op('F'), 'F', 'parse_string') and use(f1, 'F', 'read_values')
+        finally:
+            for o in opened:
+                try: o.close()
+                except Exception: pass
+        history.append('fixed_format_file parsers of one specification: %s' % scenario)
 
     def d_default(): fff.read_function_dict()
     def d_strict(): fff.read_function_dict(float, int)
@@ -498,9 +562,13 @@ def dictionaries(ctx, rounds, n_probes, n_files):
         for t in (' 1.5D+03', '  ', '***', '1 2'):
             fff.fortran_float(t); fff.fortran_int(t, 'B'); fff.fortran_read_float(t); fff.fortran_read_int(t)
     disturb = [d_default, d_strict, d_custom, d_partial, d_str, d_build_mine, d_edit_own, d_empty_own, d_use_default, d_strict_incon, d_custom_incon, d_readers]
-    checks = [check_module, check_mine, check_incon]
+    checks = [check_module, check_mine, check_incon, check_parsers, check_parsers]
     try:
-        for f in checks: f()                      # before anything else was built
+        check_module(); check_mine()              # before anything else was built
+        # the first parser of the INCON specification in this process is given the DEFAULT functions (the demanding order:
+        # only parsers given the Fortran functions are constrained by the property), then the Fortran ones
+        d_strict_incon(); history.append('t2incon(file, read_function=default_read_function)  [first parser of the INCON specification in the process]')
+        check_incon(); check_parsers(); check_parsers()
         for r in range(rounds):
             acts = disturb + checks + [rng.choice(checks)]
             rng.shuffle(acts)
@@ -517,9 +585,12 @@ def dictionaries(ctx, rounds, n_probes, n_files):
                                           'strict_incon': 't2incon(file, read_function=default_read_function)', 'custom_incon': 't2incon(file, read_function=read_function_dict(<f>, <g>))',
                                           'readers': 'fortran_float/int/read_float/read_int(text)'}[f.__name__[2:]])
                 if len(ctx.new_failures) >= 25: break
+            for _ in range(10):
+                if len(ctx.new_failures) < 25: check_parsers()
     finally:
         shutil.rmtree(tmp, ignore_errors=True)
-    ctx.oracle_cases('reader-dictionaries', counts['reader-calls'] + counts['incon-reads'], steps_between_checks=counts['steps'],
+    ctx.oracle_cases('reader-dictionaries', counts['reader-calls'] + counts['incon-reads'] + counts['parser-reads'], steps_between_checks=counts['steps'],
+                     parser_reads=counts['parser-reads'], parser_specifications=counts['parser-files'],
                      incon_reads=counts['incon-reads'], probes=len(fprobes) + len(iprobes), incon_files=len(files))
 
 
@@ -566,8 +637,8 @@ def replay(ctx, data):
     inp = data.get('input') or {}
     text = inp.get('text')
     key = data.get('finding_key', '')
-    if key.startswith('fortran_read_function:'):
-        dictionaries(ctx, 2, 20, 3)
+    if key.startswith('fortran_read_function:') or key.startswith('fixed_format_file:'):
+        dictionaries(ctx, 4, 20, 3)
         for r in ctx.new_failures[:3]: print('replay: reader-dictionaries: %s -> %s ; required: %s' % (r['input'], r['observed'], r['required']))
         return bool(ctx.new_failures)
     if text is None: return True
